@@ -98,6 +98,21 @@ elif mode == 'badbytes':
             out.append({'outcome': 'io-error', 'msg': str(e)[:60]})
         except BaseException as e:
             out.append({'outcome': 'raw-exception', 'exc': type(e).__name__})
+elif mode == 'badbytes-file':
+    import tempfile, shutil
+    d = tempfile.mkdtemp(prefix='rbqlverif_big_')
+    try:
+        for data, _errors, pol, query in arg:
+            inp = os.path.join(d, 'in.csv')
+            with open(inp, 'wb') as f: f.write(bytes(data))
+            try:
+                rbql_csv.query_csv(query, inp, ',', pol, os.path.join(d, 'out.csv'), ',', pol, 'utf-8', [], False)
+                out.append({'outcome': 'returned'})
+            except Exception as e:
+                et = rbql_engine.exception_to_error_info(e)[0]
+                out.append({'outcome': 'io-error' if et == 'IO handling' else 'other-error', 'error_type': et, 'msg': str(e)[:80]})
+    finally:
+        shutil.rmtree(d, ignore_errors=True)
 elif mode == 'badbytes-stdin':
     # the table arrives on stdin (query_csv(input_path=None)) and the interpreter's stdin has the given error handler
     # (CPython itself uses surrogateescape under the C/POSIX locale and in UTF-8 mode): the handler of the stream RBQL is
@@ -230,6 +245,29 @@ def bad_bytes_check(res, tier):
                                        'policy': it[2], 'observed': o, 'case_key': 'C15|badbyte|%s|%d|%s' % (bytes(it[0]).hex(), it[1], it[2])})
     res.count('bad_byte_runs', len(items))
     res.count('bad_byte_failures', nbad)
+    # LARGE inputs: the decoder works in blocks (io.TextIOWrapper: 8192 bytes), the first of which is read while the iterator is constructed;
+    # a bad byte in a LATER block surfaces inside the main loop, and must still be an IO-handling error of the QUERY (through rbql.query_csv)
+    big_items = []
+    row = b'1234567,abcdefgh,some text here\n'
+    for total in (9000, 20000):
+        body = row * (total // len(row) + 1)
+        for pos in (8191, 8192, 8193, 8300, total - 1):
+            data = body[:pos] + b'\xff' + body[pos:total]
+            for query in ('select a1', 'select count(*)', 'select top 1 a1 order by a2', 'update set a1 = a2'):
+                big_items.append((list(data), 'strict', 'quoted', query))
+    outs = run_impl('badbytes-file', big_items)
+    res.evaluations += len(big_items)
+    n3 = 0
+    for it, o in zip(big_items, outs):
+        res.nontrivial.add(('badbyte-big', len(it[0]), bytes(it[0]).find(b'\xff'), it[3]))
+        if o.get('outcome') != 'io-error':
+            n3 += 1
+            if n3 <= 2:
+                res.violations.append({'property': 'C15', 'impl': 'py', 'why': 'an invalid UTF-8 byte deep inside a large input file did not produce an IO-handling error of the query',
+                                       'input_size': len(it[0]), 'bad_byte_offset': bytes(it[0]).find(b'\xff'), 'query': it[3], 'observed': o,
+                                       'case_key': 'C15|badbyte-big|%d|%d|%s' % (len(it[0]), bytes(it[0]).find(b'\xff'), it[3])})
+    res.count('bad_byte_large_file_runs', len(big_items))
+    res.count('bad_byte_large_file_failures', n3)
     # the same through stdin whose own error handler is lenient
     items = []
     for pos in (0, 1, 6, len(base) // 2, len(base) - 1, len(base)):
